@@ -162,3 +162,25 @@ func (r *Recorder) EndBlockStaking() string {
 	r.Step(ctx, "EndBlock", L(S("EndBlock"), vl(evs)), out)
 	return out
 }
+
+// SlashValidator applies the staking keeper's Slash to a validator inside the current block, as the evidence and
+// slashing modules do from BeginBlock (the harness has no double-sign evidence to feed in): the validator's tokens
+// drop below the shares it has issued. Recorded as the validator update the node module's state depends on.
+func (r *Recorder) SlashValidator(val sdk.ValAddress, fraction sdk.Dec) {
+	c := r.c
+	ctx := c.CtxV()
+	sctx := c.deliverCtx()
+	v, found := c.App.StakingKeeper.GetValidator(sctx, val)
+	if !found {
+		return
+	}
+	cons, err := v.GetConsAddr()
+	if err != nil {
+		panic(err)
+	}
+	power := v.ConsensusPower(c.App.StakingKeeper.PowerReduction(sctx))
+	guard(WatchdogLimit, func() { c.App.StakingKeeper.Slash(sctx, cons, sctx.BlockHeight(), power, fraction) })
+	v2, _ := c.App.StakingKeeper.GetValidator(sctx, val)
+	evs := []V{L(S("SetVal"), S(v2.OperatorAddress), valV(v2))}
+	r.Step(ctx, "Staking", L(S("Staking"), vl(evs)), "ok")
+}
